@@ -713,7 +713,7 @@ class Model():
 
         if association.extras:
             # Add optional metadata to dict
-            association_dict['extras'] = association.extras
+            association_dict['extras'] = association.extras.as_dict()
 
         return association_dict
 
